@@ -49,14 +49,21 @@ TABLE = {
 }
 
 
+GUARDS = {
+    "mean_curve": {TABLE["mean_curve"][0]: "np.sum(self.valid_window_boolean_mask) == 1",
+                   TABLE["mean_curve"][1]: "np.sum(self.valid_window_boolean_mask) != 1"},
+    "std_curve": {TABLE["std_curve"][0]: "np.sum(self.valid_window_boolean_mask) > 1",
+                  "raise": "np.sum(self.valid_window_boolean_mask) <= 1"},
+}
+
+
 def run(ck: Checker, prog: Program, tier: str):
     cls = prog.cls("HvsrTraditional")
-    ck.guard(S.check_masked_reads, ck, prog, cls, "C05.R1", floor=5)
+    ck.guard(S.check_masked_reads, ck, prog, cls, "C05.R1", floor=4)
     ck.guard(S.check_accessor_purity, ck, prog, cls, "C05.R2", 13)
     ck.guard(S.check_estimators, ck, prog, "C05.R3")
-    ck.guard(S.check_accessor_table, ck, prog, cls, "C05.R3", TABLE)
+    ck.guard(S.check_accessor_table, ck, prog, cls, "C05.R3", TABLE, GUARDS)
     ck.guard(_cov, ck, prog, cls, "C05.R3", weighted=False)
-    ck.guard(_single_window_guard, ck, prog, cls)
     ck.guard(S.check_mask_lockstep, ck, prog, "C05.R4")
 
 
